@@ -59,7 +59,13 @@ func MergeBlockBodySchemas(block *hcl.Block, blockSchema *schema.BlockSchema) (*
 		// use extensions of DependentBody if not nil
 		// (to avoid resetting to nil)
 		if depSchema.Extensions != nil {
+			// the "dynamic" block was added above on behalf of the static body,
+			// the merged body keeps announcing dynamic blocks in that case
+			dynamicBlocks := mergedSchema.Extensions != nil && mergedSchema.Extensions.DynamicBlocks
 			mergedSchema.Extensions = depSchema.Extensions.Copy()
+			if dynamicBlocks {
+				mergedSchema.Extensions.DynamicBlocks = true
+			}
 		}
 	} else if (result == LookupFailed || result == NoDependentKeys) && mergedSchema.Extensions != nil && mergedSchema.Extensions.DynamicBlocks && len(mergedSchema.Blocks) > 0 {
 		// dynamic blocks are only relevant for dependent schemas,
